@@ -193,21 +193,31 @@ static carquet_status_t delta_decoder_read_mini_block(delta_decoder_t* dec) {
         /* No delta of a 64-bit type needs more than 64 bits: corrupt width byte */
         return CARQUET_ERROR_DECODE;
     } else {
-        /* Unpack 64-bit values (stored as little-endian bytes) */
-        int bytes_per_value = (bit_width + 7) / 8;
-        size_t packed_size = mini_block_size * bytes_per_value;
+        /* Widths 33..64: bit-packed LSB first at the exact width, like the narrower widths */
+        size_t packed_size = ((size_t)mini_block_size * (size_t)bit_width + 7) / 8;
         if (dec->pos + packed_size > dec->size) {
             return CARQUET_ERROR_DECODE;
         }
 
+        const uint8_t* src = dec->data + dec->pos;
+        size_t bit_pos = 0;
         for (int i = 0; i < mini_block_size; i++) {
-            uint64_t val = 0;
-            for (int b = 0; b < bytes_per_value; b++) {
-                val |= (uint64_t)dec->data[dec->pos++] << (b * 8);
+            size_t byte_pos = bit_pos / 8;
+            int got = 8 - (int)(bit_pos % 8);
+            uint64_t val = (uint64_t)(src[byte_pos] >> (bit_pos % 8));
+            while (got < bit_width) {
+                val |= (uint64_t)src[++byte_pos] << got;
+                got += 8;
+            }
+            if (bit_width < 64) {
+                val &= (1ULL << bit_width) - 1;
             }
             /* Use unsigned addition to avoid overflow UB */
             dec->mini_block_values[i] = (int64_t)((uint64_t)dec->min_delta + val);
+            bit_pos += (size_t)bit_width;
         }
+
+        dec->pos += packed_size;
     }
 
     dec->current_mini_block++;
@@ -392,13 +402,8 @@ static carquet_status_t delta_encoder_flush_block(delta_encoder_t* enc) {
         bit_widths[mb] = (uint8_t)bit_width_required(max_val);
         if (bit_widths[mb] > 0) {
             /* Calculate bytes needed for this mini-block */
-            if (bit_widths[mb] <= 32) {
-                /* Bitpacked: mini_block_size values * bit_width / 8 */
-                packed_bytes_needed += (size_t)mini_block_size * bit_widths[mb] / 8;
-            } else {
-                /* Byte-by-byte: mini_block_size values * bytes_per_value */
-                packed_bytes_needed += (size_t)mini_block_size * ((bit_widths[mb] + 7) / 8);
-            }
+            /* Bitpacked: mini_block_size values * bit_width / 8 */
+            packed_bytes_needed += (size_t)mini_block_size * bit_widths[mb] / 8;
         }
     }
 
@@ -437,21 +442,24 @@ static carquet_status_t delta_encoder_flush_block(delta_encoder_t* enc) {
             enc->pos += carquet_bitpack_32(to_pack, mini_block_size,
                                             bit_widths[mb], enc->data + enc->pos);
         } else {
-            /* For bit widths > 32, pack directly as bytes (little-endian) */
-            int bytes_per_value = (bit_widths[mb] + 7) / 8;
+            /* Widths 33..64: bit-pack LSB first at the exact width (padding values are zero) */
+            size_t packed_size = (size_t)mini_block_size * bit_widths[mb] / 8;
+            uint8_t* dst = enc->data + enc->pos;
+            size_t bit_pos = 0;
+            memset(dst, 0, packed_size);
             for (int i = start; i < end; i++) {
                 /* Use unsigned subtraction to avoid overflow UB */
                 uint64_t adjusted = (uint64_t)enc->deltas[i] - (uint64_t)min_delta;
-                for (int b = 0; b < bytes_per_value; b++) {
-                    enc->data[enc->pos++] = (uint8_t)(adjusted >> (b * 8));
+                size_t byte_pos = bit_pos / 8;
+                int done = 8 - (int)(bit_pos % 8);
+                dst[byte_pos] |= (uint8_t)(adjusted << (bit_pos % 8));
+                while (done < bit_widths[mb]) {
+                    dst[++byte_pos] |= (uint8_t)(adjusted >> done);
+                    done += 8;
                 }
+                bit_pos += bit_widths[mb];
             }
-            /* Pad with zeros */
-            for (int i = end - start; i < mini_block_size; i++) {
-                for (int b = 0; b < bytes_per_value; b++) {
-                    enc->data[enc->pos++] = 0;
-                }
-            }
+            enc->pos += packed_size;
         }
     }
 
